@@ -12,7 +12,12 @@ SEEDS = ["CC(=O)OCC>>CCO", "CC(=O)OC>>CC(=O)O", "CCC(=O)OC>>CO", "BrBr>>Cl", "CC
          "CCOC(=O)CCCCC(=O)OCC>>O=C1CCCC1.CCO.CCO", "COC(=O)c1ccccc1>>OC(=O)c1ccccc1",
          # redox rows (reagent templates): single and double oxidations / reductions
          "CC(O)CC(C)O>>CC(=O)CC(C)=O", "OCCCO>>O=CCC=O", "CCCO>>CCC=O", "CC(O)C>>CC(C)=O", "CC(=O)C>>CC(O)C",
-         "O=CCC=O>>OCCCO", "CCC=O>>CCC(=O)O", "OCC(O)CO>>O=CC(=O)C=O", "CC(=O)CC(C)=O>>CC(O)CC(C)O"]
+         "O=CCC=O>>OCCCO", "CCC=O>>CCC(=O)O", "OCC(O)CO>>O=CC(=O)C=O", "CC(=O)CC(C)=O>>CC(O)CC(C)O",
+         # different inputs that are completed to the SAME reaction (written with / without a co-reactant or
+         # by-product): a value remembered under the result would be shared between them
+         "CC(=O)OCC.O>>CC(=O)O", "CC(=O)OCC>>CC(=O)O", "CC(=O)OCC.O>>CCO", "CC(=O)NCc1ccccc1>>NCc1ccccc1",
+         "CC(=O)NCc1ccccc1.O>>NCc1ccccc1", "CC(=O)NCc1ccccc1.O>>CC(=O)O", "COC(=O)c1ccccc1.O>>OC(=O)c1ccccc1",
+         "COC(=O)c1ccccc1.O>>CO"]
 
 
 def _row(e):
